@@ -605,7 +605,9 @@ impl DateUtilities for DateTime {
     }
 
     fn from_timestamp(timestamp: i64) -> Self {
-        let date_time = Self::from_seconds(timestamp + DAYS_TO_1970_I64 * SECS_PER_DAY_U64 as i64);
+        let date_time = Self::from_seconds(
+            timestamp.saturating_add(DAYS_TO_1970_I64 * SECS_PER_DAY_U64 as i64),
+        );
         match date_time {
             Ok(date_time) => date_time,
             Err(e) => panic!("{}", e),
